@@ -32,4 +32,32 @@ PROPS = {
         "explanation": "Verus proves the step contracts of validate_sequence_internal/apply_sequence_update on the verbatim text for unbounded history, plus induction lemmas (accepted numbers are 1,2,3..; at most once). Kani proves the callee contract Verus assumes and compositions.",
         "jobs": {"quick": 6, "thorough": 6},
     },
+    "C16": {
+        "verus_units": ["live"],
+        "trusted": COMMON_TRUSTED,
+        "assumptions": [
+            "fewer than 2^32 consecutive failures per peer (u32 counter)",
+        ],
+        "clauses_not_decided": [
+            "that DhtCoreEngine::evict_node / handle_node_failure call remove_node (async engine; Kani ICE)",
+            "selection when trust selection is disabled (engine-level async select_query_peers)",
+        ],
+        "explanation": "Liveness policy for all histories by Verus (induction lemma over step contracts); eviction-reason predicate, events and candidate list by Kani over symbolic counts/scores/thresholds with enumerated map shapes; selector ranking by Kani (bounded candidates).",
+        "jobs": {"quick": 6, "thorough": 6},
+    },
+    "C14": {
+        "verus_units": [],
+        "trusted": COMMON_TRUSTED,
+        "assumptions": [
+            "history-level bounds (admitted <= burst + sum of refills; admitted per window <= max) follow from the per-call contract by induction; the step from per-call float inequalities to a sum over calls treats refill sums as real numbers (rounding slack 1e-9 relative per call is allowed in the contract)",
+            "sequential semantics per critical section (Engine holds a Mutex / RwLock write guard around try_consume)",
+            "window > 0 and < 2^32 s, clock readings < 2^40 s after an arbitrary base, bucket timestamps not in the future of the clock (same monotonic clock)",
+        ],
+        "clauses_not_decided": [
+            "concurrent submitters beyond the one-lock argument",
+            "call site in start_network_listeners (async)",
+        ],
+        "explanation": "Per-call contract of the token bucket proved over the full f64/u32/clock domain (loop-free => complete); prefix extraction complete; keyed engine / join limiter composition bounded.",
+        "jobs": {"quick": 6, "thorough": 6},
+    },
 }
